@@ -10,6 +10,7 @@ runs the real pipeline under recover() and a deadline over a grammar of types an
 import Gv.Model.Facts
 import Gv.Model.Types
 import Gv.Props.C14
+import Gv.Proofs.GenFragment
 
 namespace Gv.Props.C13
 open Gv Gv.Signature
@@ -90,5 +91,153 @@ theorem C13_no_target_role (o : Opts) (seen : Bool) (p : Param) (h : o.updatePar
   · split
     · simp
     · split <;> simp
+
+/-! ### an explicit termination bound on the fragment F of unnamed struct-free types
+
+The generator model is fuelled; on F the fuel it needs is bounded by twice the number of type constructors of the pair
+(`Gv.Spec.tySize`): above the bound the result is never `outOfFuel` – neither a success nor a failure is an artefact of the
+fuel – and it does not depend on the fuel at all. -/
+
+open Gv.Gen Gv.Spec in
+/-- **termination bound on F** (one position, `generator.Build`/`Assign`): with fuel ≥ 2·(tySize s + tySize t) the result is
+not `outOfFuel`, and any two such fuels give the same result (plan, state and diagnostic) -/
+theorem C13_terminates_unnamed_fragment (c : Converter) (cx : Ctx) (st : GState) (z : Bool) (s t : Ty) (path : List PathElem)
+    (mode : Mode) (pp : Bool)
+    (hs : inF s = true) (ht : inF t = true)
+    (hext : c.extend = []) (hms : plainMethods st.methods = true)
+    (hu : cx.cfg.common.useUnderlying = false) (hsk : cx.cfg.common.skipCopySameType = false)
+    (hz : cx.cfg.common.useZeroValue = z) (hc : st.useCtor = false) :
+    (∀ fuel, 2 * (tySize s + tySize t) ≤ fuel → conv c fuel cx mode pp s t path st ≠ .error .outOfFuel) ∧
+    (∀ f1 f2, 2 * (tySize s + tySize t) ≤ f1 → 2 * (tySize s + tySize t) ≤ f2 →
+      conv c f1 cx mode pp s t path st = conv c f2 cx mode pp s t path st) := by
+  have hsim := fun fuel hf =>
+    conv_fragment c cx st z s t path fuel mode pp hs ht hf hext (plainMethods_upTo _ _ hms) hu hsk hz hc
+  constructor
+  · intro fuel hf
+    rw [hsim fuel hf]
+    cases hg : genF z (asgOf mode) s t with
+    | ok q => intro h; cases h
+    | error d =>
+      intro h
+      have hd : d = .outOfFuel := by simpa [ret] using h
+      rcases genF_error z (asgOf mode) s t hs ht d hg with h1 | h1 <;> rw [h1] at hd <;> cases hd
+  · intro f1 f2 h1 h2
+    rw [hsim f1 h1, hsim f2 h2]
+
+open Gv.Gen Gv.Spec in
+/-- **termination bound on F** (a whole converter with one declared method on F-types): with fuel above the bound and at least
+two rounds of the dirty loop, `generate` never runs out of fuel and its result does not depend on fuel or rounds -/
+theorem C13_terminates_unnamed_fragment_generate (c : Converter) (d : Declared) (z : Bool)
+    (hup : d.updateTarget = false) (hraw : d.cfg.rawFieldSettings = []) (hctor : d.cfg.constructor = none)
+    (hs : inF d.source = true) (ht : inF d.target = true)
+    (hext : c.extend = [])
+    (hu : d.cfg.common.useUnderlying = false) (hsk : d.cfg.common.skipCopySameType = false)
+    (hz : d.cfg.common.useZeroValue = z) :
+    (∀ fuel rounds, 2 * (tySize d.source + tySize d.target) < fuel → 2 ≤ rounds →
+      generate c [d] fuel rounds ≠ .error .outOfFuel) ∧
+    (∀ f1 r1 f2 r2, 2 * (tySize d.source + tySize d.target) < f1 → 2 ≤ r1 →
+      2 * (tySize d.source + tySize d.target) < f2 → 2 ≤ r2 →
+      generate c [d] f1 r1 = generate c [d] f2 r2) := by
+  have hsim := fun fuel rounds hf hr => generate_single c d z fuel rounds hup hraw hctor hs ht hf hr hext hu hsk hz
+  constructor
+  · intro fuel rounds hf hr
+    rw [hsim fuel rounds hf hr]
+    cases hg : genF z false d.source d.target with
+    | ok q => intro h; cases h
+    | error e =>
+      intro h
+      have hd : e = .outOfFuel := by simpa using h
+      rcases genF_error z false d.source d.target hs ht e hg with h1 | h1 <;> rw [h1] at hd <;> cases hd
+  · intro f1 r1 f2 r2 h1 hr1 h2 hr2
+    rw [hsim f1 r1 h1 hr1, hsim f2 r2 h2 hr2]
+
+open Gv.Gen Gv.Spec in
+/-- non-vacuity: `map[string][]*int → map[string][]*int64` (rejected) with the default fuel 200 and with fuel 20 = the bound:
+same result, and it is the type mismatch, not a lack of fuel -/
+example :
+    let c : Converter := { env := [], common := {}, outputPkg := [], customs := [], extend := [], orc := {} }
+    let cx : Ctx := { (default : Ctx) with cfg := { common := {} } }
+    let st : GState := { methods := [], fileNames := [], seen := [], useCtor := false }
+    let s : Ty := .map (.basic .string) (.slice (.ptr (.basic .int)))
+    let t : Ty := .map (.basic .string) (.slice (.ptr (.basic .int64)))
+    conv c 200 cx .build false s t [] st = conv c 20 cx .build false s t [] st ∧
+      conv c 20 cx .build false s t [] st ≠ .error .outOfFuel := by
+  intro c cx st s t
+  have h := C13_terminates_unnamed_fragment c cx st false s t [] .build false (by decide) (by decide) rfl (by decide) rfl rfl rfl rfl
+  exact ⟨h.2 200 20 (by decide) (by decide), h.1 20 (by decide)⟩
+
+open Gv.Gen Gv.Spec in
+/-- **termination bound on FS** (with unnamed structs; `tySize` counts one per field on top of the field types): same statement -/
+theorem C13_terminates_unnamed_struct_fragment (c : Converter) (cx : Ctx) (st : GState) (z : Bool) (s t : Ty)
+    (path : List PathElem) (mode : Mode) (pp : Bool)
+    (hs : inFS s = true) (ht : inFS t = true) (hmode : mode.isUpdate = false)
+    (hext : c.extend = []) (hms : plainMethodsS st.methods = true)
+    (hu : cx.cfg.common.useUnderlying = false) (hsk : cx.cfg.common.skipCopySameType = false)
+    (hz : cx.cfg.common.useZeroValue = z) (hc : st.useCtor = false)
+    (h1 : cx.cfg.common.matchIgnoreCase = false) (h2 : cx.cfg.common.ignoreMissing = false)
+    (h3 : cx.cfg.fields = []) (h4 : cx.cfg.autoMap = []) (h5 : cx.updateTarget = false)
+    (h6 : noFieldSettings st.methods = true) :
+    (∀ fuel, 2 * (tySize s + tySize t) ≤ fuel → conv c fuel cx mode pp s t path st ≠ .error .outOfFuel) ∧
+    (∀ f1 f2, 2 * (tySize s + tySize t) ≤ f1 → 2 * (tySize s + tySize t) ≤ f2 →
+      conv c f1 cx mode pp s t path st = conv c f2 cx mode pp s t path st) := by
+  have hsim := fun fuel hf =>
+    conv_struct_fragment c cx st z s t path fuel mode pp hs ht hf hmode hext (plainMethodsS_upTo _ _ hms) hu hsk hz hc
+      (structPlain_of cx st h1 h2 h3 h4 h5 h6)
+  constructor
+  · intro fuel hf
+    rw [hsim fuel hf]
+    cases hg : genF z (asgOf mode) s t with
+    | ok q => intro h; cases h
+    | error d =>
+      intro h
+      have hd : d = .outOfFuel := by simpa [ret] using h
+      rcases genF_error_struct z (asgOf mode) s t d hg with h1 | h1 | h1 <;> rw [h1] at hd <;> cases hd
+  · intro f1 f2 h1 h2
+    rw [hsim f1 h1, hsim f2 h2]
+
+open Gv.Gen Gv.Spec in
+theorem C13_terminates_unnamed_struct_fragment_generate (c : Converter) (d : Declared) (z : Bool)
+    (hup : d.updateTarget = false) (hraw : d.cfg.rawFieldSettings = []) (hctor : d.cfg.constructor = none)
+    (hs : inFS d.source = true) (ht : inFS d.target = true)
+    (hext : c.extend = [])
+    (hu : d.cfg.common.useUnderlying = false) (hsk : d.cfg.common.skipCopySameType = false)
+    (hz : d.cfg.common.useZeroValue = z)
+    (h1 : d.cfg.common.matchIgnoreCase = false) (h2 : d.cfg.common.ignoreMissing = false)
+    (h3 : d.cfg.fields = []) (h4 : d.cfg.autoMap = []) :
+    (∀ fuel rounds, 2 * (tySize d.source + tySize d.target) < fuel → 2 ≤ rounds →
+      generate c [d] fuel rounds ≠ .error .outOfFuel) ∧
+    (∀ f1 r1 f2 r2, 2 * (tySize d.source + tySize d.target) < f1 → 2 ≤ r1 →
+      2 * (tySize d.source + tySize d.target) < f2 → 2 ≤ r2 →
+      generate c [d] f1 r1 = generate c [d] f2 r2) := by
+  have hsim := fun fuel rounds hf hr =>
+    generate_single_struct c d z fuel rounds hup hraw hctor hs ht hf hr hext hu hsk hz h1 h2 h3 h4
+  constructor
+  · intro fuel rounds hf hr
+    rw [hsim fuel rounds hf hr]
+    cases hg : genF z false d.source d.target with
+    | ok q => intro h; cases h
+    | error e =>
+      intro h
+      have hd : e = .outOfFuel := by simpa using h
+      rcases genF_error_struct z false d.source d.target e hg with h1 | h1 | h1 <;> rw [h1] at hd <;> cases hd
+  · intro f1 r1 f2 r2 h1 hr1 h2 hr2
+    rw [hsim f1 r1 h1 hr1, hsim f2 r2 h2 hr2]
+
+open Gv.Gen Gv.Spec in
+/-- non-vacuity: `struct{A int; B []string} → struct{A int}` with fuel 200 and with the bound 2·(6+3) = 18 -/
+example :
+    let c : Converter := { env := [], common := {}, outputPkg := [], customs := [], extend := [], orc := {} }
+    let cx : Ctx := { (default : Ctx) with cfg := { common := {} }, updateTarget := false }
+    let st : GState := { methods := [], fileNames := [], seen := [], useCtor := false }
+    let fa : FieldInfo := { name := "A".toList, exported := true, embedded := false, pkg := [] }
+    let fb : FieldInfo := { name := "B".toList, exported := true, embedded := false, pkg := [] }
+    let s : Ty := .struct (.cons fa (.basic .int) (.cons fb (.slice (.basic .string)) .nil))
+    let t : Ty := .struct (.cons fa (.basic .int) .nil)
+    conv c 200 cx .build false s t [] st = conv c 18 cx .build false s t [] st ∧
+      conv c 18 cx .build false s t [] st ≠ .error .outOfFuel := by
+  intro c cx st fa fb s t
+  have h := C13_terminates_unnamed_struct_fragment c cx st false s t [] .build false (by decide) (by decide) rfl rfl (by decide)
+    rfl rfl rfl rfl rfl rfl rfl rfl rfl (by decide)
+  exact ⟨h.2 200 18 (by decide) (by decide), h.1 18 (by decide)⟩
 
 end Gv.Props.C13
